@@ -156,6 +156,7 @@ class Project:
             except SyntaxError as e:
                 raise AnalysisError(f'{rel}: does not parse: {e}') from e
             normalise_test_temporaries(tree)
+            normalise_aliases(tree)
             self.modules[name] = Module(name, path, str(rel), src, tree, is_pkg)
 
     def digest(self) -> str:
@@ -479,3 +480,101 @@ def normalise_test_temporaries(tree: ast.Module) -> int:
                 i += 1
         do_block(fn.body)
     return n_done
+
+
+def _chain_root(e: ast.expr):
+    """(root name, [attrs]) of a pure attribute chain  root.a.b , else None"""
+    attrs = []
+    while isinstance(e, ast.Attribute):
+        attrs.append(e.attr)
+        e = e.value
+    if isinstance(e, ast.Name) and attrs:
+        return e.id, list(reversed(attrs))
+    return None
+
+
+def normalise_aliases(tree: ast.Module) -> int:
+    """IR normalisation: a local bound exactly once to a pure attribute chain (`state = self.state`, `cur = self.cursor`,
+    `cache = self.input.line_cache`) is replaced by that chain at every use that provably sees the same object: no call (other
+    than a method call on the alias itself) is evaluated between the binding and the use, the use is not in a loop that does not
+    contain the binding, and nothing in the function stores to an attribute named in the chain.  Uses that do not qualify keep the
+    local, so `inner = self.state ... self.states.pop() ... inner.cutseen` stays as written."""
+    n_done = 0
+    for fn in [n for n in ast.walk(tree) if isinstance(n, (ast.FunctionDef, ast.AsyncFunctionDef))]:
+        own = [n for n in _walk_own(fn)]
+        stores: dict[str, list] = {}
+        for n in own:
+            if isinstance(n, ast.Name) and isinstance(n.ctx, (ast.Store, ast.Del)):
+                stores.setdefault(n.id, []).append(n)
+        params = {a.arg for a in ast.walk(fn.args) if isinstance(a, ast.arg)}
+        nested_names = {x.id for d in ast.walk(fn) if d is not fn and isinstance(d, (ast.FunctionDef, ast.AsyncFunctionDef, ast.Lambda, ast.ClassDef))
+                        for x in ast.walk(d) if isinstance(x, ast.Name)}
+        stored_attrs = {n.attr for n in own if isinstance(n, ast.Attribute) and isinstance(n.ctx, (ast.Store, ast.Del))}
+        parents = {}
+        for n in own:
+            for c in ast.iter_child_nodes(n):
+                parents[id(c)] = n
+        for st in [n for n in own if isinstance(n, ast.Assign) and len(n.targets) == 1 and isinstance(n.targets[0], ast.Name)]:
+            name = st.targets[0].id
+            ch = _chain_root(st.value)
+            if ch is None or len(stores.get(name, [])) != 1 or name in params or name in nested_names:
+                continue
+            root, attrs = ch
+            if root != 'self' and root not in params:
+                continue
+            if len(stores.get(root, [])) > 0 or set(attrs) & stored_attrs:
+                continue
+            bind_end = (st.end_lineno, st.end_col_offset)
+            calls = [c for c in own if isinstance(c, ast.Call) and (c.lineno, c.col_offset) >= bind_end
+                     and not (_chain_root(c.func) or ('', []))[0] == name]
+            loops = [lp for lp in own if isinstance(lp, (ast.For, ast.While, ast.AsyncFor))]
+            for use in [n for n in own if isinstance(n, ast.Name) and n.id == name and isinstance(n.ctx, ast.Load)]:
+                pos = (use.lineno, use.col_offset)
+                if pos < bind_end:
+                    continue
+                enclosing = set()
+                cur = use
+                while id(cur) in parents:
+                    cur = parents[id(cur)]
+                    enclosing.add(id(cur))
+                if any((c.end_lineno, c.end_col_offset) <= pos and id(c) not in enclosing for c in calls):
+                    continue
+                bad_loop = False
+                for lp in loops:
+                    if id(lp) in enclosing and not any(x is st for x in ast.walk(lp)):
+                        if any(any(x is c for x in ast.walk(lp)) for c in calls):
+                            bad_loop = True
+                if bad_loop:
+                    continue
+                # substitute: the Name node becomes the chain (in place, keeping the position)
+                new = ast.copy_location(_copy_chain(st.value), use)
+                par = parents.get(id(use))
+                if par is None:
+                    continue
+                for fld, val in ast.iter_fields(par):
+                    if val is use:
+                        setattr(par, fld, new)
+                    elif isinstance(val, list):
+                        for i, v in enumerate(val):
+                            if v is use:
+                                val[i] = new
+                n_done += 1
+    return n_done
+
+
+def _copy_chain(e: ast.expr) -> ast.expr:
+    if isinstance(e, ast.Attribute):
+        return ast.Attribute(value=_copy_chain(e.value), attr=e.attr, ctx=ast.Load(), lineno=e.lineno, col_offset=e.col_offset,
+                             end_lineno=e.end_lineno, end_col_offset=e.end_col_offset)
+    return ast.Name(id=e.id, ctx=ast.Load(), lineno=e.lineno, col_offset=e.col_offset, end_lineno=e.end_lineno, end_col_offset=e.end_col_offset)
+
+
+def _walk_own(fn):
+    """nodes of a function body, nested function / class bodies excluded"""
+    stack = list(ast.iter_child_nodes(fn))
+    while stack:
+        n = stack.pop()
+        yield n
+        if isinstance(n, (ast.FunctionDef, ast.AsyncFunctionDef, ast.ClassDef, ast.Lambda)):
+            continue
+        stack.extend(ast.iter_child_nodes(n))
